@@ -766,6 +766,31 @@ def c17_scale(ctx, repo):
     ok = [w for w, _ in walk] == have and {w for w, s in walk if s} == unit_scaled and len(have) == 9
     ctx.ob("SCALE-shape", sm.rel + ":<module>", f"VARC delta walk {[w for w, _ in walk]} follows VAR_TRANSFORM_MAPPING order; scaled = {sorted(w for w, s in walk if s)}", ok, "" if ok else f"walk order differs from VAR_TRANSFORM_MAPPING order {have}, or the scaled set is not the translate/tCenter components {sorted(unit_scaled)}")
 
+    # glyf: the bounding-box fields are scaled for every glyph, composites included (their `continue` skips only the
+    # coordinate scaling); kern: every subtable handed to the visitor is scaled, not just the first one found
+    gl = [f for q, f in sm.funcs.items() if any("'glyf'" in norm(d) or '"glyf"' in norm(d) for d in f.node.decorator_list)]
+    ok = False
+    detail = "no setattr(g, <bbox field>, visitor.scale(...)) found"
+    if gl:
+        from ..cfg import implied_conditions as _ic2
+
+        gg = CFG(gl[0].node)
+        sets = [c for c in ast.walk(gl[0].node) if isinstance(c, ast.Call) and call_name(c) == "setattr" and len(c.args) == 3 and any(isinstance(x, ast.Call) and norm(x.func) == "visitor.scale" for x in ast.walk(c.args[2]))]
+        bbox_loops = [n for n in ast.walk(gl[0].node) if isinstance(n, ast.For) and isinstance(n.iter, (ast.Tuple, ast.List)) and {try_fold(e) for e in n.iter.elts} == {"xMin", "xMax", "yMin", "yMax"}]
+        if sets and bbox_loops:
+            conds = _ic2(gg, bbox_loops[0])
+            skipped = [t for t, pol in conds if "isComposite" in t]
+            ok = not skipped
+            detail = "" if ok else f"the bbox loop runs only under {skipped}: composite glyphs keep an unscaled xMin..yMax"
+    ctx.ob("SCALE-shape", sm.rel + ":<module>", "glyf: xMin/xMax/yMin/yMax are scaled for simple and composite glyphs alike", ok, detail)
+    kv = [f for q, f in sm.funcs.items() if any("'kern'" in norm(d) or '"kern"' in norm(d) for d in f.node.decorator_list)]
+    ok = False
+    if kv:
+        arg = kv[0].node.args.args[-1].arg
+        loops = [n for n in walk_no_nested(kv[0].node) if isinstance(n, ast.For) and norm(n.iter) == arg]
+        ok = bool(loops) and any(isinstance(c, ast.Call) and norm(c.func) == "visitor.scale" for c in ast.walk(loops[0])) and not any(isinstance(c, ast.Call) and last_attr(c) == "getkern" for c in ast.walk(kv[0].node))
+    ctx.ob("SCALE-shape", sm.rel + ":<module>", "kern: the visitor loops over every subtable it is given", ok, "" if ok else "only one subtable (getkern(0) returns the first format-0 one) is rescaled; later subtables keep old units")
+
     # F2Dot14 guard of the COLR scale paint
     sp = sm.func("_setup_scale_paint")
     F2DOT14_MAX = 32767 / 16384
